@@ -1060,7 +1060,8 @@ class OrbitBase(TidalPyClass):
             # Change the orbital distance of the tidal host.
             if self.world_signature_to_index(world_signature, return_tidal_host=True) != 0:
                 log.warning('A tidal world is setting the stellar distance for the tidal host.')
-            self.set_semi_major_axis(world_signature, distance, set_stellar_orbit=True)
+            # The stellar orbit belongs to the tidal host: address the host, not the (tidal world) caller's own orbit slot.
+            self.set_semi_major_axis(self.tidal_host, distance, set_stellar_orbit=True)
 
     def set_stellar_eccentricity(self, world_signature: WorldSignatureType, eccentricity: 'FloatArray'):
         """ Set the orbital eccentricity between a world of interest and the star (used for insolation calculations)
@@ -1087,7 +1088,8 @@ class OrbitBase(TidalPyClass):
             # Change the orbital distance of the tidal host.
             if self.world_signature_to_index(world_signature, return_tidal_host=True) != 0:
                 log.warning('A tidal world is setting the stellar eccentricity for the tidal host.')
-            self.set_eccentricity(world_signature, eccentricity, set_stellar_orbit=True)
+            # The stellar orbit belongs to the tidal host: address the host, not the (tidal world) caller's own orbit slot.
+            self.set_eccentricity(self.tidal_host, eccentricity, set_stellar_orbit=True)
 
     # # Tidal World Getters
     def get_eccentricity(self, world_signature: WorldSignatureType, for_stellar_orbit: bool = False) -> 'FloatArray':
